@@ -1,2 +1,133 @@
+"""C03 (second half) -- FileSet.match against FindProps!MatchOK."""
+import datetime as dt
+import json
+import os
+
+import c01
+from fsmodel import EMBEDDINGS, Tree
+from vlib.par import pmap
+from vlib.tlc import MachineryError, tla_value
+
+
+def gen_cases(ctx, T, maxfiles, maxdur, nsample, seed):
+    d = ctx.tlc_dir("fileset")
+    with open(os.path.join(d, "MCMatch.cfg"), "w") as f:
+        f.write("CONSTANTS T = %d MaxFiles = %d MaxDur = %d NSample = %d Intervals = {0, 1, 2}\n"
+                "INIT Init\nNEXT Next\nINVARIANT Emit\n" % (T, maxfiles, maxdur, nsample))
+    res = ctx.tlc(d, "MatchCases", "MCMatch.cfg", workers=1, seed=seed, timeout=900)
+    cases = list(res.tagged("CASE"))
+    if not cases:
+        raise MachineryError("MatchCases produced no case")
+    return cases
+
+
+def do_match(fa, ta, fb, tb, emb, s, e, I):
+    from typhon.files.fileset import NoFilesError
+    try:
+        out = []
+        for p, gs in fa.match(fb, emb.t(s), emb.t(e), max_interval=I * emb.unit if I is not None else None):
+            out.append([ta.ids([p])[0], tb.ids(gs)])
+        return out
+    except NoFilesError:
+        return "nofiles"
+
+
+def replay_pair(col, item):
+    case, emb_name, layout_a, layout_b = item
+    emb = EMBEDDINGS[emb_name]
+    ta = Tree([tuple(f) for f in case["F"]], emb, layout_a, "fullend")
+    tb = Tree([tuple(f) for f in case["G"]], emb, layout_b, "fullend")
+    times = {f[0]: (f[1], f[2]) for f in case["F"] + case["G"]}
+    try:
+        fa, fb = ta.fileset(), tb.fileset()
+        for s, e, I, pairs, nP, nG in case["rows"]:
+            exp = sorted((p, sorted(gs)) for p, gs in pairs)
+            rep = {"abstract": {"F": case["F"], "G": case["G"], "s": s, "e": e, "I": I},
+                   "concrete": {"embedding": emb_name, "layouts": [layout_a, layout_b]}, "expected": exp}
+            try:
+                got = do_match(fa, ta, fb, tb, emb, s, e, I)
+            except Exception as ex:
+                col.violation("match-raises-" + type(ex).__name__, dict(rep, observed=repr(ex)))
+                continue
+            col.count(1)
+            if got == "nofiles":
+                # NoFilesError is an accepted way to report that one side has no file in the period
+                if nP and nG:
+                    col.violation("match-nofiles-but-files", dict(rep, observed=got))
+                continue
+            if sorted((p, sorted(gs)) for p, gs in got) != exp:
+                col.violation("match-wrong-pairing", dict(rep, observed=got))
+            elif any(times[a[0]] > times[b[0]] for a, b in zip(got, got[1:])) or \
+                    any(times[x] > times[y] for _, gs in got for x, y in zip(gs, gs[1:])):
+                col.violation("match-order", dict(rep, observed=got))
+            if exp and (len(exp) < nP or any(len(gs) < nG for _, gs in exp)):
+                col.nontrivial.add((json.dumps(case["F"]), json.dumps(case["G"]), s, e, I))
+    finally:
+        ta.remove()
+        tb.remove()
+
+
+def record_session(rng, tid, emb_name, la, lb, T):
+    emb = EMBEDDINGS[emb_name]
+    def pop(n, base, maxdur):
+        fs, seen = [], set()
+        while len(fs) < n:
+            t0 = rng.randrange(0, T)
+            t1 = min(T - 1, t0 + rng.choice([0, 1, maxdur, rng.randint(0, maxdur)]))
+            if (t0, t1) in seen:
+                continue
+            seen.add((t0, t1))
+            fs.append((base + len(fs) + 1, t0, t1, 1))
+        return fs
+    F = pop(rng.randint(2, 8), 0, rng.choice([1, 3, T]))
+    G = pop(rng.randint(2, 8), 100, rng.choice([1, 3, T]))
+    ta, tb = Tree(F, emb, la, "fullend"), Tree(G, emb, lb, "fullend")
+    calls = []
+    try:
+        fa, fb = ta.fileset(), tb.fileset()
+        for _ in range(6):
+            s = rng.randrange(0, T)
+            e = rng.randrange(s + 1, T + 1)
+            I = rng.choice([0, 1, 2, 5])
+            base = {"op": "match", "s": s, "e": e, "I": I}
+            try:
+                got = do_match(fa, ta, fb, tb, emb, s, e, I)
+                if got == "nofiles":
+                    continue     # judged in direction A only
+                calls.append(dict(base, ok=True, out=got))
+            except Exception as ex:
+                calls.append(dict(base, ok=False, out=[], err=repr(ex)[:200]))
+    finally:
+        ta.remove()
+        tb.remove()
+    return {"tid": tid, "F": [list(f) for f in F], "G": [list(f) for f in G], "calls": calls,
+            "concrete": {"embedding": emb_name, "layouts": [la, lb]}}
+
+
 def run(ctx):
-    pass
+    quick = ctx.tier == "quick"
+    if quick:
+        cases = gen_cases(ctx, 8, 2, 8, 120, ctx.seed)
+    else:
+        cases = gen_cases(ctx, 8, 2, 8, 1500, ctx.seed) + gen_cases(ctx, 8, 3, 8, 500, ctx.seed)
+    combos = [("yearend6h", "flat", "flat"), ("yearend6h", "flat", "Y"), ("hour15m", "Y/M", "flat"), ("leapday6h", "Y", "Y/M")]
+    items = [(c,) + combos[n % len(combos)] for n, c in enumerate(cases)]
+    pmap(ctx, replay_pair, items)
+    ctx.traces += len(items)
+    ctx.sample({"match_case": {"F": cases[0]["F"], "G": cases[0]["G"], "rows": cases[0]["rows"][:3]}})
+    n = 40 if quick else 400
+    recs = [record_session(ctx.rng, tid, *combos[tid % len(combos)], 14) for tid in range(1, n + 1)]
+    tdir = ctx.tmpdir()
+    path = os.path.join(tdir, "match.ndjson")
+    with open(path, "w") as f:
+        for r in recs:
+            f.write(json.dumps(r) + "\n")
+    acc, rej = c01.validate_traces(ctx, path, n)
+    ctx.traces += len(acc)
+    ctx.count(sum(len(r["calls"]) for r in recs))
+    for tid, k in sorted(rej.items()):
+        r = recs[tid - 1]
+        c = r["calls"][k - 1]
+        ctx.violation("trace-match" + ("" if c["ok"] else "-raises"),
+                      {"abstract": {"F": r["F"], "G": r["G"], "call": c}, "concrete": r["concrete"],
+                       "tlc": {"module": "FindTrace", "first_unexplained_call": k}})
